@@ -5,6 +5,10 @@ package extendeddaemonset
 import (
 	"time"
 
+	corev1 "k8s.io/api/core/v1"
+	metav1 "k8s.io/apimachinery/pkg/apis/meta/v1"
+	"k8s.io/apimachinery/pkg/util/intstr"
+
 	datadoghqv1alpha1 "github.com/DataDog/extendeddaemonset/api/v1alpha1"
 	"github.com/DataDog/extendeddaemonset/zzverif/fakeapi"
 	"github.com/DataDog/extendeddaemonset/zzverif/nondet"
@@ -131,4 +135,55 @@ func ZZ_C11_edsFaults() {
 	nondet.Reach("C11.eds.create-lost", faulted && scenario == "first-deployment" && len(c.ERS) >= 1)
 	nondet.Reach("C11.eds.status-write-failed", faulted && scenario == "promotion" && mid.Status.ActiveReplicaSet == "foo-a")
 	nondet.Reach("C11.eds.no-fault", !faulted)
+}
+
+// ZZ_C11_readFaults: "if any single API call made during a reconcile fails ..." — reads included.
+// The reconcile that starts a canary (one canary node wanted; node0's daemon pod restarted four
+// times, node1's never) with every Get / List failing or not, independently: a reconcile in which a
+// read failed reports the failure, and after failure-free reconciles the canary runs on the node
+// the failure-free run selects (the one whose pods restarted least) — a selection made from a
+// failed read must not stick.
+func ZZ_C11_readFaults() {
+	one := intstr.FromInt(1)
+	canary := &datadoghqv1alpha1.ExtendedDaemonSetSpecStrategyCanary{Replicas: &one, Duration: &metav1.Duration{Duration: time.Hour}}
+	ds := zzEDS("ns", "foo", "B", canary)
+	c := fakeapi.New()
+	rsA := zzRS(ds, "A", "foo-a", nondet.Base().Add(-24*time.Hour))
+	rsA.Status.Desired, rsA.Status.Current, rsA.Status.Ready, rsA.Status.Available = 2, 2, 2, 2
+	rsB := zzRS(ds, "B", "foo-b", nondet.Base().Add(-time.Minute))
+	c.ERS = append(c.ERS, rsA, rsB)
+	ds.Status.ActiveReplicaSet = "foo-a"
+	ds.Status.Desired = 2
+	restarts := []int32{4, 0}
+	for i, name := range []string{"node0", "node1"} {
+		c.Nodes = append(c.Nodes, &corev1.Node{ObjectMeta: metav1.ObjectMeta{Name: name}})
+		c.Pods = append(c.Pods, &corev1.Pod{
+			ObjectMeta: metav1.ObjectMeta{Name: "pod-" + name, Namespace: "ns", Labels: map[string]string{datadoghqv1alpha1.ExtendedDaemonSetNameLabelKey: "foo"}},
+			Spec:       corev1.PodSpec{NodeName: name},
+			Status:     corev1.PodStatus{ContainerStatuses: []corev1.ContainerStatus{{Name: "agent", RestartCount: restarts[i]}}},
+		})
+	}
+	c.EDS = append(c.EDS, ds)
+	rec := zzReconciler(c)
+	c.InjectReadFaults = true
+	_, err1 := zzReconcile(rec, "ns", "foo")
+	c.InjectReadFaults = false
+	readFailed := false
+	for _, e := range c.Log {
+		if e.Failed && (e.Verb == "get" || e.Verb == "list") {
+			readFailed = true
+		}
+	}
+	// "a failed API call is reported"
+	nondet.Assert("C11.read.error-reported", nondet.Implies(readFailed, err1 != nil))
+	for i := 0; i < 3; i++ {
+		_, err := zzReconcile(rec, "ns", "foo")
+		nondet.Assert("C11.read.recovery-ok", err == nil)
+	}
+	final := zzStoredEDS(c, "ns", "foo")
+	nondet.Assert("C11.read.same-canary-node-as-without-failure", final.Status.Canary != nil && len(final.Status.Canary.Nodes) == 1 && final.Status.Canary.Nodes[0] == "node1")
+	nondet.Assert("C11.read.active-unchanged", final.Status.ActiveReplicaSet == "foo-a")
+	nondet.Observe("readFailed", readFailed)
+	nondet.Reach("C11.read.a-read-failed", readFailed)
+	nondet.Reach("C11.read.none-failed", !readFailed)
 }
